@@ -202,6 +202,19 @@ CHECKS = {
             'DESIGN.md 4 C20'),
 }
 
+# generic analyses shared by many rule sets (gscan/memo.py, presence.py, carried.py, typedomain.py, fieldkey.py), all run on
+# the canonicalised program model (gscan/canon.py)
+_MP = ' + memoisation-soundness (key covers reads) and optional-numeric presence (is-None vs truthiness) analyses'
+COMMON_TECH = {pid: _MP for pid in ('C01', 'C02', 'C03', 'C04', 'C05', 'C06', 'C07', 'C08', 'C09', 'C10', 'C11', 'C12', 'C13',
+                                    'C14', 'C15', 'C16', 'C19')}
+COMMON_TECH['C17'] = ' + optional-numeric presence analysis'
+COMMON_TECH['C16'] += ' + must-definition dataflow for loop-carried locals'
+COMMON_TECH['C19'] += ' + must-definition dataflow for loop-carried locals'
+COMMON_TECH['C08'] += ' + finite-domain truth table of isinstance conditions over the element classes'
+COMMON_TECH['C11'] += ' + finite-domain truth table of isinstance conditions over the element classes'
+for _p in ('C04', 'C05', 'C06'):
+    COMMON_TECH[_p] += ' + constructor field/key agreement table'
+
 NOT_APPLICABLE = {}
 for i in range(1, 21):
     pid = f'C{i:02d}'
@@ -226,8 +239,9 @@ def main():
             'path': 'gscan/',
             'serves_properties': sorted(CHECKS),
             'kind_free_text': 'repository-specific static analyser (pure-stdlib ast): program model + call resolution, '
-                              'effect summaries, statement CFG/typestate, def-use, gated value graph with rational '
-                              'normal form, table/YANG agreement',
+                              'canonicalising front end, effect summaries, statement CFG/typestate, def-use, gated value graph '
+                              'with rational normal form, memoisation / presence / loop-carried dataflow analyses, finite-domain '
+                              'evaluation, table/YANG agreement',
         }],
         'checks': [],
         'not_applicable': [{'property_id': k, 'reason': v} for k, v in sorted(NOT_APPLICABLE.items())],
@@ -244,7 +258,7 @@ def main():
             'engine': 'gscan',
             'level_claimed': {'category': cat, 'text': text, 'design_ref': ref},
             'level_note': note,
-            'technique': tech,
+            'technique': tech + COMMON_TECH.get(pid, ''),
         })
     with open(os.path.join(HERE, 'MANIFEST.json'), 'w') as fh:
         json.dump(man, fh, indent=1)
